@@ -6,6 +6,7 @@ CONSTANTS
   Cap = 2
   Weaken = "noPastGuard"
   GapFix = FALSE
+  CertRounds = {1}
   Direct = TRUE
   Timeouts = FALSE
 PROPERTY NoRerunCtl
